@@ -3,7 +3,10 @@
 // through viper (override, default, merged map, JSON document, YAML document, a mix of default +
 // file + override, environment variables as main.go binds them) and generated
 // dotted paths, and prints each tree with the calls and what they returned as a Gallina case for
-// Check.C19.
+// Check.C19.  A case may go on after its first calls: later phases change the configuration of the
+// SAME viper instance (viper.Set / SetDefault / MergeConfigMap / MergeConfig of one leaf, an
+// environment variable set or unset, a re-read document, a new level of the global logger; never
+// viper.Reset) and call again; every answer is compared with the tree as it stood at the call.
 package c19
 
 import (
@@ -40,11 +43,27 @@ type Query struct {
 	Path string `json:"path"`
 }
 
+// Change is one change of the configuration between calls, made on the live viper instance
+// through the case's layer.
+type Change struct {
+	Op       string `json:"op"`               // set | unset | reload | deflevel
+	Leaf     *Leaf  `json:"leaf,omitempty"`   // set: the key and its new value; unset: the key (env layer only)
+	Leaves   []Leaf `json:"leaves,omitempty"` // reload: the whole re-read tree (config / json / yaml layers)
+	DefLevel int    `json:"deflevel,omitempty"`
+}
+
+// Phase is a later stretch of a case: changes, then calls.
+type Phase struct {
+	Changes []Change `json:"changes"`
+	Queries []Query  `json:"queries"`
+}
+
 type Input struct {
 	Layer    string   `json:"layer"` // set | default | config | json | yaml | mixed | env
 	DefLevel int      `json:"deflevel"`
 	Leaves   []Leaf   `json:"leaves"`
 	Queries  []Query  `json:"queries"`
+	Later    []Phase  `json:"later,omitempty"`
 	Tags     []string `json:"tags,omitempty"`
 }
 
@@ -492,6 +511,200 @@ func finish(in Input) Input {
 }
 
 // ---------------------------------------------------------------------------------------------
+// Histories: one viper instance, calls, a change at or above a path that was asked for, calls again.
+
+func keyEq(a, b []string) bool {
+	if len(a) != len(b) {
+		return false
+	}
+	for i := range a {
+		if a[i] != b[i] {
+			return false
+		}
+	}
+	return true
+}
+
+func keyPrefix(p, k []string) bool { return len(p) <= len(k) && keyEq(p, k[:len(p)]) }
+
+// applyChange mirrors Model.apply_change on the leaves (the level of the logger aside).
+func applyChange(cur []Leaf, ch Change) []Leaf {
+	switch ch.Op {
+	case "set", "unset":
+		out := make([]Leaf, 0, len(cur)+1)
+		if ch.Op == "set" {
+			out = append(out, *ch.Leaf)
+		}
+		for _, l := range cur {
+			if !keyEq(l.Key, ch.Leaf.Key) {
+				out = append(out, l)
+			}
+		}
+		return out
+	case "reload":
+		return append([]Leaf{}, ch.Leaves...)
+	}
+	return cur
+}
+
+// conflicts: the key would turn an inner node into a leaf or hang a leaf below a leaf; viper's
+// layers disagree on what shadows what there, and no such tree is generated.
+func conflicts(cur []Leaf, key []string) bool {
+	for _, l := range cur {
+		if !keyEq(l.Key, key) && (keyPrefix(l.Key, key) || keyPrefix(key, l.Key)) {
+			return true
+		}
+	}
+	return false
+}
+
+func fnOfSetting(s string) Query {
+	switch s {
+	case kAddresses, kAddress:
+		return Query{Fn: "addresses"}
+	case kTimeout:
+		return Query{Fn: "timeout"}
+	case kLogLevel:
+		return Query{Fn: "loglevel"}
+	case kConcurrency:
+		return Query{Fn: "concurrency"}
+	}
+	return Query{Fn: "bool", Var: s}
+}
+
+func properComps(path string) ([]string, bool) {
+	if path == "" {
+		return nil, true
+	}
+	comps := strings.Split(path, ".")
+	for _, c := range comps {
+		if c == "" {
+			return nil, false
+		}
+	}
+	return comps, true
+}
+
+// changeFor shapes a leaf into the change the layer can carry.
+func changeFor(layer string, l Leaf) Change {
+	switch layer {
+	case "env":
+		e := forEnv([]Leaf{l})
+		if len(e) == 0 {
+			return Change{Op: "unset", Leaf: &Leaf{Key: l.Key}}
+		}
+		return Change{Op: "set", Leaf: &e[0]}
+	case "mixed":
+		// the change goes to the override layer, where a null lets the lower layers show through:
+		// an explicit empty string is the "no value" of that layer
+		if l.Kind == "nil" {
+			l.Kind, l.S, l.Class = "str", "", "empty"
+		}
+	}
+	return Change{Op: "set", Leaf: &l}
+}
+
+// history: a focused or random tree and its calls, then 1-3 phases; each phase changes one or two
+// keys at a level (the top level included) of a path asked for before - a value appears, changes,
+// or goes away (zero / empty / null / unset) - or the logger level, or re-reads a changed document,
+// and then repeats earlier calls and asks siblings that run through the same prefixes.
+func (g *gen) history() Input {
+	r := g.r
+	var in Input
+	if r.Chance(1, 3) {
+		in = g.random()
+	} else {
+		in = g.focused()
+	}
+	if r.Chance(1, 3) {
+		in.Queries = in.Queries[:r.Range(1, len(in.Queries))]
+	}
+	in = finish(in)
+	cur := append([]Leaf{}, in.Leaves...)
+	asked := append([]Query{}, in.Queries...)
+	for ph := r.Range(1, 3); ph > 0; ph-- {
+		var phase Phase
+		var touched []Query // (setting, node) pairs as queries on the changed node
+		for nch := r.Range(1, 2); nch > 0; nch-- {
+			if r.Chance(1, 10) {
+				phase.Changes = append(phase.Changes, Change{Op: "deflevel", DefLevel: defLevels[r.Intn(len(defLevels))]})
+				continue
+			}
+			// a level of a path asked for before
+			var q Query
+			var comps []string
+			ok := false
+			for try := 0; try < 8 && !ok; try++ {
+				q = asked[r.Intn(len(asked))]
+				comps, ok = properComps(q.Path)
+			}
+			if !ok {
+				continue
+			}
+			k := r.Range(0, len(comps))
+			if r.Chance(1, 6) {
+				k = 0
+			}
+			setting := settingOf(q)
+			if r.Chance(1, 12) { // another setting at the same node: must not matter
+				setting = g.settingsList()[r.Intn(6)]
+			}
+			if q.Fn == "addresses" && k == 0 && r.Chance(1, 3) {
+				setting = kAddress
+			}
+			key := append(append([]string{}, comps[:k]...), setting)
+			if conflicts(cur, key) {
+				continue
+			}
+			cls := []string{"valid", "valid", "valid", "valid", "zero", "empty", "nil", "invalid", "wrongtype"}[r.Intn(9)]
+			l := g.value(setting, cls)
+			l.Key = key
+			ch := changeFor(in.Layer, l)
+			if (in.Layer == "config" || in.Layer == "json" || in.Layer == "yaml") && r.Chance(1, 6) {
+				// the document is edited and read again as a whole
+				next := applyChange(cur, ch)
+				if len(next) > 1 && r.Chance(1, 2) {
+					drop := r.Intn(len(next))
+					next = append(append([]Leaf{}, next[:drop]...), next[drop+1:]...)
+				}
+				ch = Change{Op: "reload", Leaves: next}
+			}
+			cur = applyChange(cur, ch)
+			phase.Changes = append(phase.Changes, ch)
+			tq := fnOfSetting(setting)
+			if tq.Fn == q.Fn {
+				tq.Var = q.Var
+			}
+			tq.Path = strings.Join(comps[:k], ".")
+			touched = append(touched, tq)
+		}
+		if len(phase.Changes) == 0 {
+			continue
+		}
+		// calls: earlier ones again, the changed nodes, and siblings below them
+		for _, i := range r.Perm(len(asked)) {
+			if len(phase.Queries) >= 5 {
+				break
+			}
+			phase.Queries = append(phase.Queries, asked[i])
+		}
+		for _, tq := range touched {
+			phase.Queries = append(phase.Queries, tq)
+			sib := tq
+			if sib.Path == "" {
+				sib.Path = vocab[0][r.Intn(len(vocab[0]))]
+			} else {
+				sib.Path += "." + []string{"zz", "other", "best", "c"}[r.Intn(4)]
+			}
+			phase.Queries = append(phase.Queries, sib)
+		}
+		asked = append(asked, phase.Queries...)
+		in.Later = append(in.Later, phase)
+	}
+	return in
+}
+
+// ---------------------------------------------------------------------------------------------
 // Driving the implementation.
 
 var envReplacer = strings.NewReplacer("-", "_", ".", "_")
@@ -553,6 +766,13 @@ func install(in Input) (func(), error) {
 			names = append(names, envName(l.Key))
 			os.Setenv(envName(l.Key), l.S)
 		}
+		for _, ph := range in.Later {
+			for _, ch := range ph.Changes {
+				if ch.Op == "set" {
+					names = append(names, envName(ch.Leaf.Key))
+				}
+			}
+		}
 		return func() {
 			for _, n := range names {
 				os.Unsetenv(n)
@@ -593,6 +813,85 @@ func install(in Input) (func(), error) {
 		return cleanup, fmt.Errorf("unknown layer %q", in.Layer)
 	}
 	return cleanup, nil
+}
+
+// applyLive makes one change on the live viper instance, through the case's layer, without Reset.
+func applyLive(layer string, ch Change) error {
+	docOf := func(leaves []Leaf) (*bytes.Reader, error) {
+		doc, err := json.Marshal(nested(leaves))
+		return bytes.NewReader(doc), err
+	}
+	switch ch.Op {
+	case "deflevel":
+		zerologger.Logger = zerologger.Logger.Level(zerolog.Level(ch.DefLevel))
+		return nil
+	case "unset":
+		if layer != "env" {
+			return fmt.Errorf("unset is an environment change, layer is %q", layer)
+		}
+		return os.Unsetenv(envName(ch.Leaf.Key))
+	case "reload":
+		switch layer {
+		case "config":
+			viper.SetConfigType("json")
+		case "json", "yaml":
+		default:
+			return fmt.Errorf("reload needs a document layer, layer is %q", layer)
+		}
+		rd, err := docOf(ch.Leaves)
+		if err != nil {
+			return err
+		}
+		return viper.ReadConfig(rd)
+	case "set":
+		l := *ch.Leaf
+		key := strings.Join(l.Key, ".")
+		switch layer {
+		case "env":
+			if l.Kind != "str" || l.S == "" {
+				return fmt.Errorf("env layer carries non-empty strings only")
+			}
+			return os.Setenv(envName(l.Key), l.S)
+		case "set":
+			viper.Set(key, goValue(l))
+		case "mixed":
+			if l.Kind == "nil" {
+				return fmt.Errorf("a null override is transparent; not a change of the mixed layer")
+			}
+			viper.Set(key, goValue(l))
+		case "default":
+			viper.SetDefault(key, goValue(l))
+		case "config":
+			return viper.MergeConfigMap(nested([]Leaf{l}))
+		case "json", "yaml":
+			rd, err := docOf([]Leaf{l})
+			if err != nil {
+				return err
+			}
+			return viper.MergeConfig(rd)
+		default:
+			return fmt.Errorf("unknown layer %q", layer)
+		}
+		return nil
+	}
+	return fmt.Errorf("unknown change %q", ch.Op)
+}
+
+func changeTerm(ch Change) string {
+	switch ch.Op {
+	case "set":
+		return App("ChSet", strList(ch.Leaf.Key), rawTerm(*ch.Leaf))
+	case "unset":
+		return App("ChDel", strList(ch.Leaf.Key))
+	case "reload":
+		leaves := make([]string, 0, len(ch.Leaves))
+		for _, l := range ch.Leaves {
+			leaves = append(leaves, Pair(strList(l.Key), rawTerm(l)))
+		}
+		return App("ChReload", List(leaves))
+	default:
+		return App("ChDefLevel", Z(int64(ch.DefLevel)))
+	}
 }
 
 func strList(l []string) string {
@@ -654,7 +953,7 @@ func rawTerm(l Leaf) string {
 
 // present returns, for a query, the classes of the leaves found at the candidate keys, deepest
 // level first (index 0 = the full path, last = the top level); "" where nothing is configured.
-func present(in Input, q Query) []string {
+func present(leaves []Leaf, q Query) []string {
 	var comps []string
 	if q.Path != "" {
 		comps = strings.Split(q.Path, ".")
@@ -664,7 +963,7 @@ func present(in Input, q Query) []string {
 	for k := len(comps); k >= 0; k-- {
 		key := strings.Join(append(append([]string{}, comps[:k]...), s), ".")
 		cls := ""
-		for _, l := range in.Leaves {
+		for _, l := range leaves {
 			lk := strings.Join(l.Key, ".")
 			if lk == key && l.Kind != "nil" {
 				cls = l.Class
@@ -682,48 +981,133 @@ func present(in Input, q Query) []string {
 
 func classify(in Input) (tags []string, nontrivial bool, counts []string) {
 	set := map[string]bool{}
-	nodes := map[string]bool{}
-	for _, l := range in.Leaves {
-		for i := 1; i < len(l.Key); i++ {
-			nodes[strings.Join(l.Key[:i], ".")] = true
+	segment := func(leaves []Leaf, queries []Query) {
+		nodes := map[string]bool{}
+		for _, l := range leaves {
+			for i := 1; i < len(l.Key); i++ {
+				nodes[strings.Join(l.Key[:i], ".")] = true
+			}
+		}
+		for _, q := range queries {
+			pr := present(leaves, q)
+			n, deepest := 0, ""
+			for _, c := range pr {
+				if c != "" {
+					if n == 0 {
+						deepest = c
+					}
+					n++
+				}
+			}
+			counts = append(counts, fmt.Sprintf("levels-with-a-raw-value:%d", n))
+			if n >= 2 {
+				nontrivial = true
+				set["two-or-more-levels"] = true
+				if n == 2 {
+					set["exactly-two-levels"] = true
+				}
+				switch deepest {
+				case "zero":
+					set["explicit-zero-or-false-deeper"] = true
+				case "empty":
+					set["explicit-empty-deeper"] = true
+				case "invalid", "wrongtype", "map":
+					set["malformed-deeper"] = true
+				}
+			}
+			if q.Path != "" && !nodes[q.Path] {
+				set["nonexistent-branch"] = true
+			}
+			if q.Path == "" {
+				set["top-level-query"] = true
+			}
+			if strings.HasPrefix(q.Path, ".") || strings.HasSuffix(q.Path, ".") || strings.Contains(q.Path, "..") {
+				set["weird-path"] = true
+			}
 		}
 	}
-	for _, q := range in.Queries {
-		pr := present(in, q)
-		n, deepest := 0, ""
-		for _, c := range pr {
-			if c != "" {
-				if n == 0 {
-					deepest = c
+	segment(in.Leaves, in.Queries)
+
+	// histories: which keys changed, was a path through the changed level asked before and again after
+	through := func(q Query, key []string) (int, bool) {
+		comps, ok := properComps(q.Path)
+		if !ok || len(key) == 0 {
+			return 0, false
+		}
+		setting, node := key[len(key)-1], key[:len(key)-1]
+		if settingOf(q) != setting && !(q.Fn == "addresses" && setting == kAddress && len(node) == 0) {
+			return 0, false
+		}
+		return len(comps) - len(node), keyPrefix(node, comps)
+	}
+	cur := append([]Leaf{}, in.Leaves...)
+	asked := append([]Query{}, in.Queries...)
+	for _, ph := range in.Later {
+		set["history"] = true
+		var changed [][]string
+		for _, ch := range ph.Changes {
+			next := applyChange(cur, ch)
+			index := func(ls []Leaf) map[string]string {
+				m := map[string]string{}
+				for i := len(ls) - 1; i >= 0; i-- {
+					l := ls[i]
+					l.Class = ""
+					b, _ := json.Marshal(l)
+					m[strings.Join(l.Key, "\x00")] = string(b)
 				}
-				n++
+				return m
+			}
+			before, after := index(cur), index(next)
+			for k, v := range after {
+				if before[k] != v {
+					changed = append(changed, strings.Split(k, "\x00"))
+				}
+			}
+			for k := range before {
+				if _, ok := after[k]; !ok {
+					changed = append(changed, strings.Split(k, "\x00"))
+				}
+			}
+			if ch.Op == "deflevel" {
+				set["history:logger-level-changed"] = true
+			}
+			if ch.Op == "reload" {
+				set["history:reload"] = true
+			}
+			cur = next
+		}
+		for _, key := range changed {
+			if len(key) == 1 {
+				set["history:top-level-changed"] = true
+			}
+			before := false
+			for _, q := range asked {
+				if _, ok := through(q, key); ok {
+					before = true
+				}
+			}
+			for _, q := range ph.Queries {
+				below, ok := through(q, key)
+				if !ok || !before {
+					continue
+				}
+				set["history:change-on-asked-path"] = true
+				nontrivial = true
+				// nothing configured deeper than the changed level: the change decides the answer
+				pr := present(cur, q)
+				decides := true
+				for i := 0; i < below && i < len(pr); i++ {
+					if pr[i] != "" {
+						decides = false
+					}
+				}
+				if decides {
+					set["history:change-decides"] = true
+				}
 			}
 		}
-		counts = append(counts, fmt.Sprintf("levels-with-a-raw-value:%d", n))
-		if n >= 2 {
-			nontrivial = true
-			set["two-or-more-levels"] = true
-			if n == 2 {
-				set["exactly-two-levels"] = true
-			}
-			switch deepest {
-			case "zero":
-				set["explicit-zero-or-false-deeper"] = true
-			case "empty":
-				set["explicit-empty-deeper"] = true
-			case "invalid", "wrongtype", "map":
-				set["malformed-deeper"] = true
-			}
-		}
-		if q.Path != "" && !nodes[q.Path] {
-			set["nonexistent-branch"] = true
-		}
-		if q.Path == "" {
-			set["top-level-query"] = true
-		}
-		if strings.HasPrefix(q.Path, ".") || strings.HasSuffix(q.Path, ".") || strings.Contains(q.Path, "..") {
-			set["weird-path"] = true
-		}
+		segment(cur, ph.Queries)
+		asked = append(asked, ph.Queries...)
 	}
 	set["layer:"+in.Layer] = true
 	for t := range set {
@@ -754,6 +1138,34 @@ func runCase(t *testing.T, col *Collector, in Input) {
 		col.Count("fn:" + q.Fn)
 	}
 
+	// later phases: the same viper instance, changed in place
+	later := make([]string, 0, len(in.Later))
+	observedLater := make([][]any, 0, len(in.Later))
+	for _, ph := range in.Later {
+		chterms := make([]string, 0, len(ph.Changes))
+		for _, ch := range ph.Changes {
+			if err := applyLive(in.Layer, ch); err != nil {
+				t.Fatalf("changing the configuration (%s, %s): %v", in.Layer, ch.Op, err)
+			}
+			chterms = append(chterms, changeTerm(ch))
+			col.Count("change:" + ch.Op)
+			if ch.Op == "set" {
+				col.Count("change-value-class:" + ch.Leaf.Class)
+			}
+		}
+		pq := make([]string, 0, len(ph.Queries))
+		po := make([]any, 0, len(ph.Queries))
+		for _, q := range ph.Queries {
+			term, obs := call(q)
+			pq = append(pq, term)
+			po = append(po, obs)
+			col.Count("fn-after-change:" + q.Fn)
+		}
+		later = append(later, Pair(List(chterms), List(pq)))
+		observedLater = append(observedLater, po)
+	}
+	col.Count(fmt.Sprintf("later-phases:%d", len(in.Later)))
+
 	leaves := make([]string, 0, len(in.Leaves))
 	for _, l := range in.Leaves {
 		leaves = append(leaves, Pair(strList(l.Key), rawTerm(l)))
@@ -768,15 +1180,16 @@ func runCase(t *testing.T, col *Collector, in Input) {
 	key, _ := json.Marshal(in)
 	id := col.NextID()
 	col.Add(Case{
-		Term: Record("c_id", N(id), "c_cfg", List(leaves), "c_deflevel", Z(int64(in.DefLevel)), "c_queries", List(qterms)),
-		Key:  string(key), Nontrivial: nontrivial, Tags: tags,
-		Sample: map[string]any{"input": in, "observed": observed},
+		Term: Record("c_id", N(id), "c_cfg", List(leaves), "c_deflevel", Z(int64(in.DefLevel)), "c_queries", List(qterms),
+			"c_later", List(later)),
+		Key: string(key), Nontrivial: nontrivial, Tags: tags,
+		Sample: map[string]any{"input": in, "observed": observed, "observed_later": observedLater},
 	})
 }
 
 func TestC19(t *testing.T) {
 	col := NewCollector("C19", "Check.C19",
-		"configuration trees over 1-3 spines of depth 1-4 with the five hierarchical settings present / absent / zero / empty / malformed at every level, installed through one viper layer, and 4-8 calls of the real util functions per tree; non-trivial = some call has a raw value configured at two or more of its candidate levels (so the choice of level decides the result); distinct by full input text")
+		"configuration trees over 1-3 spines of depth 1-4 with the five hierarchical settings present / absent / zero / empty / malformed at every level, installed through one viper layer, and 4-8 calls of the real util functions per tree; a quarter of the cases go on as a history on the same viper instance (1-3 phases of changes at levels of paths already asked for - value set, changed, removed, document re-read, logger level - each followed by repeated and sibling calls); non-trivial = some call has a raw value configured at two or more of its candidate levels (so the choice of level decides the result), or a later phase changes a candidate key of a path asked for before the change and asked through again after it; distinct by full input text")
 	n := EnvInt("VERIF_N", 1500)
 	// main.go's environment binding is one of the layers: start from a clean VOUCH_ namespace.
 	for _, kv := range os.Environ() {
@@ -792,7 +1205,11 @@ func TestC19(t *testing.T) {
 	rng := NewRand(Seed())
 	for i := 0; i < n; i++ {
 		g := &gen{r: rng.Fork()}
-		if g.r.Chance(2, 5) {
+		if k := g.r.Intn(20); k < 5 {
+			in := g.history()
+			in.Tags = append(in.Tags, "gen:history")
+			ins = append(ins, in)
+		} else if k < 11 {
 			in := finish(g.focused())
 			in.Tags = append(in.Tags, "gen:focused")
 			ins = append(ins, in)
